@@ -47,6 +47,10 @@ pub enum Class {
     MatchBoxPayload,
     BoxedDropped,
     FactoryCallbackScheduledByLetrecTask,
+    IfElseBoxedDropped,
+    SiblingClosuresSharedUpvalue,
+    OptionLike,
+    GlobalFnUsingGlobalBox,
     // ---- known findings on the pinned tree (rate per dsp call in `rate()`)
     LocalCaptureBound,
     ReturnedBound,
@@ -67,9 +71,10 @@ pub enum Class {
     IfReturnedClosure,
     ClosureThroughCalls,
     VariantClosureLocal,
+    BoxedReturnedFromIfDropped,
 }
 
-pub const STABLE: [Class; 26] = [
+pub const STABLE: [Class; 30] = [
     Class::LocalNoCapture,
     Class::InplaceCapturing,
     Class::GlobalClosureCalled,
@@ -96,8 +101,12 @@ pub const STABLE: [Class; 26] = [
     Class::MatchBoxPayload,
     Class::BoxedDropped,
     Class::FactoryCallbackScheduledByLetrecTask,
+    Class::IfElseBoxedDropped,
+    Class::SiblingClosuresSharedUpvalue,
+    Class::OptionLike,
+    Class::GlobalFnUsingGlobalBox,
 ];
-pub const LEAKY: [Class; 19] = [
+pub const LEAKY: [Class; 20] = [
     Class::LocalCaptureBound,
     Class::ReturnedBound,
     Class::ReturnedInplace,
@@ -117,6 +126,7 @@ pub const LEAKY: [Class; 19] = [
     Class::IfReturnedClosure,
     Class::ClosureThroughCalls,
     Class::VariantClosureLocal,
+    Class::BoxedReturnedFromIfDropped,
 ];
 
 impl Class {
@@ -147,6 +157,11 @@ impl Class {
             Class::NestedTupleClosuresReturned => "closures-in-a-nested-tuple-returned-to-dsp",
             Class::GlobalVariantClosure => "closure-in-a-variant-made-by-main",
             Class::BoxedDropped => "boxed-value-built-in-dsp-and-dropped-unused",
+            Class::IfElseBoxedDropped => "boxed-value-selected-by-if-in-dsp-and-dropped",
+            Class::SiblingClosuresSharedUpvalue => "sibling-closures-sharing-an-upvalue-made-by-main",
+            Class::OptionLike => "option-like-variant-match",
+            Class::GlobalFnUsingGlobalBox => "global-lambda-reading-a-global-boxed-list",
+            Class::BoxedReturnedFromIfDropped => "boxed-value-returned-from-a-callee-branch-and-dropped",
             Class::FactoryCallbackScheduledByLetrecTask => "factory-made-callback-scheduled-by-a-letrec-task",
             Class::MatchBoxPayload => "match-projecting-a-boxed-payload-of-a-global-tree",
             Class::AssignGlobalClosure => "closure-assigned-to-a-global-from-dsp",
@@ -175,6 +190,7 @@ impl Class {
         match self {
             Class::LocalCaptureBound | Class::LocalIfSelectedFn => (1, 0),
             Class::LocalTupleClosure => (1, 1),
+            Class::BoxedReturnedFromIfDropped => (0, 1),
             Class::NestedTupleClosuresReturned => (2, 2),
             Class::AssignGlobalClosure | Class::ClosureThroughCalls | Class::VariantClosureLocal => (1, 1),
             Class::IfReturnedClosure => (1, 0),
@@ -358,6 +374,37 @@ impl Inst {
                 };
                 (ty, format!("  let bx{i} = {ctor};\n  let r{i} = now;\n"), format!("r{i}"))
             }
+            Class::IfElseBoxedDropped => (
+                format!("type rec Il{i} = In{i} | Ic{i}(float, Il{i})\n"),
+                format!("  let ib{i} = if (now > {k}) {{ Ic{i}(1.0, In{i}) }} else {{ Ic{i}(2.0, In{i}) }};\n  let r{i} = now;\n"),
+                format!("r{i}"),
+            ),
+            Class::SiblingClosuresSharedUpvalue => (
+                format!(
+                    "fn mks{i}(){{\n  let x = 0.0\n  let inc = | | {{\n    x = x + {k}\n    x\n  }}\n  let get = | | {{ x }}\n  (inc, get)\n}}\nlet (si{i}, sg{i}) = mks{i}()\n"
+                ),
+                format!("  let r{i} = si{i}() + sg{i}();\n"),
+                format!("r{i}"),
+            ),
+            Class::OptionLike => (
+                format!(
+                    "type Opt{i} = No{i} | Ju{i}(float)\nfn val{i}(o: Opt{i}) -> float {{\n  match o {{\n    No{i} => 0.0,\n    Ju{i}(v) => v\n  }}\n}}\n"
+                ),
+                format!("  let r{i} = val{i}(Ju{i}(now + {k})) + val{i}(No{i});\n"),
+                format!("r{i}"),
+            ),
+            Class::GlobalFnUsingGlobalBox => (
+                format!("{}let gl{i} = Cons({k}, Cons(2.0, Nil))\nlet gf{i} = |x| sum(gl{i}) + x\n", LIST_DEF),
+                format!("  let r{i} = gf{i}(now);\n"),
+                format!("r{i}"),
+            ),
+            Class::BoxedReturnedFromIfDropped => (
+                format!(
+                    "type rec Rl{i} = Rn{i} | Rc{i}(float, Rl{i})\nfn pick{i}(c){{\n  if (c > 0.5) {{ Rc{i}({k}, Rn{i}) }} else {{ Rn{i} }}\n}}\n"
+                ),
+                format!("  let rb{i} = pick{i}(now);\n  let r{i} = now;\n"),
+                format!("r{i}"),
+            ),
             Class::FactoryCallbackScheduledByLetrecTask => (
                 format!(
                     "let fa{i} = 0.0\nfn mkcb{i}(q){{\n  | | {{ fa{i} = fa{i} + q }}\n}}\nlet cb{i} = mkcb{i}({k})\nfn start{i}(){{\n  letrec tk = | | {{\n    cb{i}@(now + 1.0)\n    tk@(now + {p})\n  }}\n  tk@1.0\n}}\nstart{i}()\n",
